@@ -48,6 +48,7 @@ type Contract struct {
 	CallReqs []*CallReq // extra conditions at call sites inside this function
 	SendReqs []*Clause  // conditions on values this function sends on a channel ("sent" names the value)
 	SendSite []int      // per SendReqs entry: 0 = every send site, k = only the k-th send site in source order
+	RecvAssumes []*Clause // assumed about every value received from a channel ("recv", "recvFrom"): the matching sendreq of the sender justifies it
 	RetReqs  []*Clause // conditions at every return site, over the function's own variables and result0.. (checked, never assumed by callers)
 	Preserves []string // "preserves pkg.T ...": everything may be written except the fields of these struct types (and ghosts)
 	Oracle bool     // executable transcription of the property used for counterexample search; not verified
@@ -57,7 +58,7 @@ type Contract struct {
 var clauseKeywords = map[string]bool{
 	"func": true, "mode": true, "props": true, "trusted": true, "requires": true, "ensures": true,
 	"assigns": true, "nopanic": true, "pure": true, "loop": true, "invariant": true, "decreases": true,
-	"note": true, "funcfield": true, "iface": true, "global": true, "let": true, "oracle": true, "covers": true, "def": true, "callreq": true, "sendreq": true, "preserves": true, "retreq": true,
+	"note": true, "funcfield": true, "iface": true, "global": true, "let": true, "oracle": true, "covers": true, "def": true, "callreq": true, "sendreq": true, "preserves": true, "retreq": true, "recvassume": true,
 }
 
 // parseContractFile reads //@ lines. pkgPath is the import path of the
@@ -210,6 +211,12 @@ func parseContractLines(sc *bufio.Scanner, path, pkgPath string) ([]*Contract, e
 			}
 			cur.SendReqs = append(cur.SendReqs, c)
 			cur.SendSite = append(cur.SendSite, site)
+		case "recvassume":
+			c, err := mk("recvassume", rc)
+			if err != nil {
+				return nil, err
+			}
+			cur.RecvAssumes = append(cur.RecvAssumes, c)
 		case "retreq":
 			c, err := mk("retreq", rc)
 			if err != nil {
